@@ -37,3 +37,17 @@ Definition ex_text : str :=
   [36;46;97;91;63;99;111;117;110;116;40;64;46;42;41;32;62;61;32;49;32;38;38;32;33;64;91;39;92;117;48;48;54;50;39;93;93]%N.
 Example C04_example : rfc_query ex_text.
 Proof. apply in_rfc_sound. vm_compute. reflexivity. Qed.
+
+(* the lexer's regular expressions and ESCAPES in the model are the ones REGENERATED from lex.py on this run *)
+From JP Require Import Proofs.GenTies Gen.LexConst Model.Lex.
+Theorem C04_lexer_tables_regenerated :
+  g_RE_WHITESPACE = RE_WHITESPACE /\ g_RE_PROPERTY = RE_PROPERTY /\ g_RE_INDEX = RE_INDEX /\ g_RE_INT = RE_INT /\
+  g_RE_FLOAT = RE_FLOAT /\ g_RE_FUNCTION_NAME = RE_FUNCTION_NAME /\ g_ESCAPES = ESCAPES.
+Proof. exact lex_regexes_regenerated. Qed.
+Print Assumptions C04_lexer_tables_regenerated.
+
+(* precedences, operator tables and the key sets of token_map / function_argument_map in the model are the ones
+   REGENERATED from parse.py and filter_expressions.py on this run *)
+Theorem C04_parser_tables_regenerated : parse_tables_ok = true.
+Proof. exact parse_tables_regenerated. Qed.
+Print Assumptions C04_parser_tables_regenerated.
